@@ -129,6 +129,9 @@ def main():
     results = []
     for p in patches:
         checks = ["C%02d" % i for i in range(1, 20)] if allc else None
+        only = [a.split("=", 1)[1].split(",") for a in sys.argv if a.startswith("--checks=")]
+        if only and checks:
+            checks = [c for c in checks if c in only[0]]
         r = run(p, checks)
         results.append(r)
         if "--write-meta" in sys.argv and os.path.basename(p) == "patch.diff":
